@@ -51,6 +51,8 @@ def run(ctx, tier):
                     "inside a blob URL's path")
     ctx.rule("T11", "search / hash getters return the empty string for a null and for an empty component; the host getter appends the "
                     "port whenever it is not null")
+    ctx.rule("T12", "a verdict flag about a whole scan (trivial path, dot seen, upper case seen) is only narrowed / widened inside its loop, "
+                    "never overwritten by the last iteration")
     ctx.rule("T6b", "'starts with a Windows drive letter' is asked of the whole remaining input, never of a view cut to two bytes")
     ctx.rule("S2b", "authority state: behind atSignSeen the emptiness test is on the buffer (input up to the delimiter)")
     ctx.rule("S4", "in each state of the parser the set of URL components that the state's code sets equals the set the "
@@ -77,6 +79,7 @@ def run(ctx, tier):
         HS.check_opaque_space(ctx, fxs[name], "T9")
         HS.check_origin(ctx, fxs[name], "T10")
         HS.check_getter_empties(ctx, fxs[name], "T11")
+        HS.check_loop_verdicts(ctx, fxs[name], "T12", lambda g: "url_pattern" not in g["qname"], 3)
         HS.check_drive_letter_callers(ctx, fxs[name], "T6b")
         HS.check_authority_buffer_test(ctx, fxs[name], "S2b")
         from rules import c01_failctx
